@@ -1,7 +1,11 @@
 // C02 harness (own legs): (a) "never calls a dynamic allocator": global operator new/delete and
 // malloc-family interposers count allocations while a battery of library operations runs on caller-provided
 // and inline storage only; (b) default-initialised objects: placement-new WITHOUT initialiser over storage
-// pre-filled with 0xFF, then the observers must report an empty object (reads no indeterminate value).
+// pre-filled with 0xFF, then the observers must report the empty state (reads no indeterminate value);
+// (c) `noalloc_ce`: the constexpr-capable batteries are additionally evaluated by GCC's constant evaluator at
+// compile time (static_assert below): undefined behaviour inside a constant expression -- out-of-bounds access also
+// INSIDE an object (which ASan cannot see), read of an uninitialised value, signed overflow -- makes this
+// translation unit ill-formed, i.e. the harness no longer builds.
 #include "common.hpp"
 
 #include <cstdlib>
@@ -9,23 +13,39 @@
 
 #include <etl/algorithm.hpp>
 #include <etl/array.hpp>
+#include <etl/bit.hpp>
 #include <etl/bitset.hpp>
+#include <etl/cctype.hpp>
 #include <etl/charconv.hpp>
+#include <etl/chrono.hpp>
+#include <etl/cstdlib.hpp>
 #include <etl/cstring.hpp>
+#include <etl/cwchar.hpp>
+#include <etl/expected.hpp>
 #include <etl/flat_set.hpp>
+#include <etl/functional.hpp>
 #include <etl/inplace_vector.hpp>
+#include <etl/iterator.hpp>
+#include <etl/mdarray.hpp>
+#include <etl/mdspan.hpp>
+#include <etl/memory.hpp>
 #include <etl/numeric.hpp>
 #include <etl/optional.hpp>
 #include <etl/set.hpp>
 #include <etl/span.hpp>
+#include <etl/stack.hpp>
 #include <etl/string.hpp>
 #include <etl/string_view.hpp>
+#include <etl/strings.hpp>
+#include <etl/tuple.hpp>
+#include <etl/utility.hpp>
 #include <etl/variant.hpp>
 #include <etl/vector.hpp>
 
 static volatile bool g_count_allocs = false;
 static volatile long g_allocs       = 0;
 
+#if !defined(C02_SAN)   // the sanitizer variant keeps ASan's own allocator: the batteries run under ASan+UBSan instead
 void* operator new(std::size_t n)
 {
     if (g_count_allocs) { g_allocs = g_allocs + 1; }
@@ -57,6 +77,7 @@ extern "C" void* realloc(void* p, std::size_t n)
     if (g_count_allocs) { g_allocs = g_allocs + 1; }
     return __libc_realloc(p, n);
 }
+#endif
 
 using namespace vh;
 
@@ -75,84 +96,432 @@ struct NonTrivial {
 
 static long long g_sink = 0;
 
+static constexpr int free_twice(int x) { return 2 * x; }
+struct Acc {
+    int base{0};
+    constexpr auto add(int x) const -> int { return base + x; }
+};
+
+// ---- batteries that are also constant expressions: every one is run (i) at run time under the allocation counter
+// and (ii) by the constant evaluator (static_assert at the end of the file) --------------------------------------
+namespace ce {
+
+constexpr auto vec(int seed) -> long long
+{
+    etl::static_vector<int, 8> v;
+    for (int i = 0; i < 8; ++i) { v.push_back(seed + i); }   // exactly full
+    v.erase(v.begin() + 2, v.begin() + 4);
+    v.insert(v.begin() + 1, 2, 7);                           // exactly full again
+    v.pop_back();
+    v.insert(v.end(), 1, 9);
+    v.resize(3);
+    auto w = v;
+    w.swap(v);
+    etl::static_vector<int, 0> z;
+    return static_cast<long long>(v.size() + w.size() + z.size()) + v.front() + w.back();
+}
+
+constexpr auto str(int seed) -> long long
+{
+    etl::inplace_string<15> s{"abc"};        // tiny layout: the size lives in the last character
+    s.append("defgh");
+    s.insert(2, "xy");
+    s.erase(1, 2);
+    s.push_back(static_cast<char>('a' + (seed % 20)));
+    s.append(7, 'z');                        // reaches capacity 15 exactly
+    auto const full = s.size();
+    s.resize(4);
+    etl::inplace_string<16> t{"hello world"};   // normal layout
+    t.append(5, '!');                        // reaches capacity 16 exactly
+    t.replace(0, 1, "J");
+    t.pop_back();
+    auto const u = t.substr(6, 100);
+    return static_cast<long long>(full + s.size() + t.size() + u.size() + t.find("wor") + t.rfind('o') + t.find_first_of("xyz!"))
+         + s.compare(t) + (t.starts_with("Jello") ? 1 : 0) + (t.ends_with('!') ? 1 : 0);
+}
+
+constexpr auto view(int seed) -> long long
+{
+    // NOT null-terminated, the view ends with the array: a one-past read is an out-of-bounds read of the array
+    char const raw[] = {'t', 'h', 'e', ' ', 'q', 'u', 'i', 'c', 'k', ' ', 'f', 'o', 'x', 'f', 'o'};
+    etl::string_view h{raw, sizeof raw};
+    etl::string_view e{};
+    auto const n = etl::string_view{raw + 10, 3};   // "fox"
+    long long acc = 0;
+    acc += static_cast<long long>(h.find(n) + h.find("fo", 11) + h.rfind("fo") + h.find('x', static_cast<etl::size_t>(seed % 15)));
+    acc += static_cast<long long>(h.find_first_of("xq") + h.find_last_of("t") + h.find_first_not_of("the ") + h.find_last_not_of("fo"));
+    acc += static_cast<long long>(h.find("fox!") == etl::string_view::npos ? 1 : 0);   // needle runs past the end
+    acc += static_cast<long long>(e.find("a") == etl::string_view::npos ? 1 : 0) + static_cast<long long>(e.rfind("") );
+    acc += static_cast<long long>(e.find_last_of("a") == etl::string_view::npos ? 1 : 0);
+    acc += static_cast<long long>(e.find_last_not_of("a") == etl::string_view::npos ? 1 : 0);
+    acc += h.substr(13).compare("fo") + h.compare(10, 3, n) + (h.starts_with("the") ? 1 : 0) + (h.ends_with("xfo") ? 1 : 0);
+    acc += static_cast<long long>(h.substr(15).size() + h.substr(4, 5).size());
+    return acc;
+}
+
+constexpr auto algo(int seed) -> long long
+{
+    int a[8] = {5, 3, 8, 1, 9, 2, 7, seed};
+    etl::sort(a, a + 8);
+    etl::rotate(a, a + 3, a + 8);
+    etl::stable_sort(a, a + 8);
+    auto* p = etl::lower_bound(a, a + 8, 5);
+    etl::reverse(a, a + 8);
+    etl::shift_left(a, a + 8, 3);
+    etl::shift_right(a, a + 8, 2);
+    auto* q  = etl::remove_if(a, a + 8, [](int x) { return x % 2 == 0; });
+    auto* u  = etl::unique(a, q);
+    auto* pp = etl::partition(a, u, [](int x) { return x > 4; });
+    int e[1] = {0};
+    etl::sort(e, e);                  // empty ranges
+    etl::exchange_sort(e, e);
+    etl::rotate(e, e, e);
+    etl::reverse(e, e);
+    return (p - a) + (q - a) + (u - a) + (pp - a) + etl::accumulate(a, a + 8, 0) + *etl::max_element(a, a + 8);
+}
+
+constexpr auto algo2(int seed) -> long long
+{
+    int a[6]  = {1, 2, 2, 5, 7, 9};
+    int b[4]  = {2, 5, seed, 11};
+    int o[10] = {};
+    etl::sort(b, b + 4);
+    long long acc = 0;
+    acc += etl::find(a, a + 6, 5) - a;
+    acc += etl::search(a, a + 6, b, b + 1) - a;
+    acc += etl::find_end(a, a + 6, b, b + 1) - a;
+    acc += etl::adjacent_find(a, a + 6) - a;
+    acc += etl::count(a, a + 6, 2);
+    acc += etl::equal(a, a + 4, b, b + 4) ? 1 : 0;
+    acc += etl::lexicographical_compare(a, a + 6, b, b + 4) ? 1 : 0;
+    acc += etl::mismatch(a, a + 4, b).first - a;
+    acc += etl::binary_search(a, a + 6, 7) ? 1 : 0;
+    acc += etl::upper_bound(a, a + 6, 2) - a;
+    acc += etl::equal_range(a, a + 6, 2).second - a;
+    acc += etl::includes(a, a + 6, b, b + 1) ? 1 : 0;
+    acc += etl::merge(a, a + 6, b, b + 4, o) - o;                      // exact fit: 10
+    acc += etl::set_union(a, a + 6, b, b + 4, o) - o;
+    acc += etl::set_intersection(a, a + 6, b, b + 4, o) - o;
+    acc += etl::set_difference(a, a + 6, b, b + 4, o) - o;
+    acc += etl::set_symmetric_difference(a, a + 6, b, b + 4, o) - o;
+    acc += etl::is_permutation(a, a + 6, a) ? 1 : 0;
+    acc += etl::min_element(a, a + 6) - a;
+    acc += etl::minmax_element(a, a + 6).second - a;
+    acc += etl::is_sorted_until(b, b + 4) - b;
+    acc += etl::inner_product(a, a + 4, b, 0);
+    etl::partial_sum(a, a + 6, o);
+    etl::adjacent_difference(a, a + 6, o + 4);                         // ends exactly at o + 10
+    etl::iota(o, o + 10, seed);
+    etl::copy_n(a, 6, o + 4);                                          // exact fit
+    etl::copy_backward(a, a + 6, o + 10);
+    etl::fill_n(o, 10, 1);
+    etl::inplace_merge(a, a + 3, a + 6);
+    etl::nth_element(o, o + 5, o + 10);
+    etl::partial_sort(o, o + 3, o + 10);
+    etl::stable_partition(o, o + 10, [](int x) { return x > 0; });
+    etl::rotate_copy(a, a + 2, a + 6, o);
+    etl::reverse_copy(a, a + 6, o + 4);
+    etl::swap_ranges(a, a + 4, b);
+    etl::transform(a, a + 4, b, o, [](int x, int y) { return x + y; });
+    acc += etl::gcd(seed + 12, 18) + etl::lcm(4, 6) + etl::midpoint(seed, 100);
+    return acc + o[9];
+}
+
+constexpr auto conv(int seed) -> long long
+{
+    long long acc = 0;
+    char exact[11] = {};                      // "-2147483648": exact fit, no room for a terminator
+    auto r = etl::to_chars(exact, exact + 11, -2147483647 - 1, 10);
+    acc += r.ptr - exact;
+    int back = 0;
+    auto f = etl::from_chars(exact, r.ptr, back, 10);
+    acc += (f.ptr - exact) + (back == -2147483647 - 1 ? 1 : 0);
+    char small[3] = {};
+    auto r2 = etl::to_chars(small, small + 3, 1000 + seed, 10);   // does not fit
+    acc += r2.ptr - small;
+    auto r3 = etl::to_chars(small, small, 7, 10);                 // empty buffer
+    acc += r3.ptr - small;
+    char hex[16] = {};
+    auto r4 = etl::to_chars(hex, hex + 16, 0xFFFFFFFFFFFFFFFFULL, 16);   // exact fit
+    acc += r4.ptr - hex;
+    unsigned char uc = 0;
+    auto f2 = etl::from_chars(hex, r4.ptr, uc, 16);               // overflow detected, no signed overflow
+    acc += static_cast<long long>(f2.ec == etl::errc{} ? 1 : 0);
+    auto ti = etl::strings::to_integer<int>(etl::string_view{"  -123x", 7}, 10);
+    acc += ti.value;
+    auto ti2 = etl::strings::to_integer<signed char>(etl::string_view{"999", 3}, 10);
+    acc += static_cast<long long>(ti2.error == etl::strings::to_integer_error::none ? 1 : 0);
+    char fi[4] = {};
+    auto fr = etl::strings::from_integer(-12, fi, 4, 10);         // exact fit with terminator
+    acc += static_cast<long long>(fr.error == etl::strings::from_integer_error::none ? 1 : 0);
+    return acc;
+}
+
+constexpr auto sets(int seed) -> long long
+{
+    etl::static_set<int, 4> s;
+    s.insert(3); s.insert(1); s.insert(seed); s.insert(3); s.insert(9); s.insert(11);   // full: the last ones are refused
+    s.erase(1);
+    etl::flat_set<int, etl::static_vector<int, 4>> f;
+    f.insert(4); f.insert(2); f.insert(4); f.insert(8);
+    f.erase(2);
+    long long acc = static_cast<long long>(s.size() + f.size()) + (s.contains(3) ? 1 : 0) + (f.contains(8) ? 1 : 0);
+    acc += static_cast<long long>(s.count(7) + f.count(4));
+    auto it = s.lower_bound(4);
+    acc += (it == s.end()) ? 0 : *it;
+    return acc;
+}
+
+constexpr auto sum(int seed) -> long long
+{
+    etl::optional<int> o;
+    o.emplace(4);
+    auto o2 = o;
+    o.reset();
+    etl::variant<int, long, char> v{1};
+    v = 2L;
+    v.emplace<0>(seed);
+    auto vv = v;
+    etl::expected<int, char> e{etl::in_place, 3};
+    etl::expected<int, char> g{etl::unexpect, 'x'};
+    auto tmp = e;
+    e        = g;
+    g        = tmp;
+    g.emplace(seed);
+    long long acc = static_cast<long long>(v.index() + vv.index()) + o2.value_or(0) + o.value_or(5);
+    acc += e.has_value() ? *e : static_cast<long long>(e.error());
+    acc += g.value_or(0);
+    acc += etl::visit([](auto x) { return static_cast<long long>(x); }, vv);
+    return acc;
+}
+
+constexpr auto bits(int seed) -> long long
+{
+    etl::bitset<70> b;
+    b.set(69);
+    b.flip();
+    b &= ~etl::bitset<70>{0x0FULL};
+    b ^= etl::bitset<70>{static_cast<unsigned long long>(seed)};
+    b.reset(static_cast<etl::size_t>(seed % 70));
+    etl::bitset<64> c{0xF0F0F0F0F0F0F0F0ULL};
+    etl::bitset<8> d{etl::string_view{"10110"}};
+    long long acc = static_cast<long long>(b.count() + c.count() + d.count()) + (b.test(0) ? 1 : 0) + (c[63] ? 1 : 0);
+    acc += static_cast<long long>(c.to_ullong() & 0xFFU);
+    acc += etl::popcount(static_cast<unsigned>(seed)) + etl::countl_zero(1U) + etl::countr_zero(8U);
+    acc += static_cast<long long>(etl::bit_ceil(5U) + etl::bit_floor(5U) + etl::bit_width(255U) + etl::rotl(static_cast<unsigned char>(0x81), -9));
+    acc += static_cast<long long>(etl::byteswap(static_cast<etl::uint16_t>(0x1234)));
+    acc += static_cast<long long>(etl::add_sat(2147483647, seed)) + etl::saturate_cast<signed char>(300) + (etl::cmp_less(-1, 1U) ? 1 : 0);
+    return acc;
+}
+
+constexpr auto views(int seed) -> long long
+{
+    int arr[12] = {1, 2, 3, 4, 5, 6, 7, 8, 9, 10, 11, 12};
+    etl::span<int> sp{arr};
+    auto sub  = sp.subspan(1, 2);
+    auto last = sp.last(12);                 // the whole span
+    auto none = sp.subspan(12);              // empty, at the end
+    auto fst  = sp.first<3>();
+    etl::mdspan<int, etl::extents<int, 3, 4>> m{arr};
+    etl::mdspan<int, etl::dextents<int, 2>, etl::layout_left> ml{arr, 4, 3};
+    long long acc = static_cast<long long>(sub.size() + last.size() + none.size() + fst.size());
+    acc += m(2, 3) + ml(3, 2) + m(seed % 3, seed % 4);       // the last element of the buffer through both layouts
+    acc += static_cast<long long>(m.size() + m.extent(1) + m.mapping().required_span_size());
+    acc += sp.front() + sp.back() + sp[11];
+    return acc;
+}
+
+constexpr auto wrap(int seed) -> long long
+{
+    etl::pair<int, long> p{seed, 2L};
+    auto q = p;
+    q.swap(p);
+    etl::tuple<int, char, long> t{1, 'a', 3L};
+    auto t2 = t;
+    auto const s = etl::apply([](int a, char b, long c) { return static_cast<long long>(a) + b + c; }, t2);
+    auto cat     = etl::tuple_cat(t, etl::tuple<int>{4});
+    int x        = 5;
+    auto r       = etl::ref(x);
+    r.get()      = 6;
+    auto nf      = etl::not_fn([](int y) { return y > 3; });
+    Acc acc_obj{3};
+    long long acc = s + etl::get<3>(cat) + x + (nf(2) ? 1 : 0) + etl::invoke(&Acc::add, acc_obj, 4);
+    acc += etl::get<0>(p) + static_cast<long long>(etl::get<1>(q)) + etl::exchange(x, 1) + etl::invoke(free_twice, 2);
+    return acc;
+}
+
+constexpr auto chrono(int seed) -> long long
+{
+    namespace ch = etl::chrono;
+    auto ms  = ch::milliseconds{2500 + seed};
+    auto s   = ch::duration_cast<ch::seconds>(ms);
+    auto f   = ch::floor<ch::seconds>(-ms);
+    auto c   = ch::ceil<ch::seconds>(ms);
+    auto r   = ch::round<ch::seconds>(ms);
+    auto h   = ch::hours{2} + ch::minutes{30} - ch::seconds{5};
+    auto ymd = ch::year_month_day{ch::year{2024}, ch::month{2}, ch::day{29}};
+    auto sd  = ch::sys_days{ymd};
+    auto back = ch::year_month_day{sd + ch::days{seed}};
+    auto lo   = ch::year_month_day{ch::sys_days{ch::days{-12687428}}};   // first supported day
+    auto wd   = ch::weekday{sd};
+    auto ym   = ch::year{2020} / ch::month{12} + ch::months{1 + seed};
+    long long acc = s.count() + f.count() + c.count() + r.count() + h.count();
+    acc += static_cast<int>(back.year()) + static_cast<unsigned>(back.month()) + static_cast<unsigned>(back.day());
+    acc += static_cast<int>(lo.year()) + static_cast<long long>(wd.c_encoding()) + static_cast<int>(ym.year());
+    acc += (ymd.ok() ? 1 : 0) + (ch::year{1900}.is_leap() ? 1 : 0) + (ms < ch::seconds{3} ? 1 : 0);
+    return acc;
+}
+
+}   // namespace ce
+
 // each battery returns a checksum so that nothing is optimised away; no std:: containers inside
 static long long battery(int which, int seed)
 {
     long long acc = 0;
     switch (which) {
     case 0: {   // static_vector, trivial and non-trivial storage
-        etl::static_vector<int, 8> v;
-        for (int i = 0; i < 8; ++i) { v.push_back(seed + i); }
-        v.erase(v.begin() + 2, v.begin() + 4);
-        v.insert(v.begin() + 1, 2, 7);
-        v.resize(3);
-        auto w = v;
-        w.swap(v);
+        acc += ce::vec(seed);
         etl::static_vector<NonTrivial, 4> n;
         n.emplace_back(1); n.emplace_back(2); n.insert(n.begin(), NonTrivial{3}); n.erase(n.begin());
-        acc += v.size() + w.size() + n.size() + v.front();
+        n.emplace_back(4); n.emplace_back(5);   // exactly full
+        auto m = n;
+        auto k = etl::move(m);
+        n.clear();
+        acc += static_cast<long long>(n.size() + k.size()) + k.back().v;
         break;
     }
     case 1: {   // inplace_vector
         etl::inplace_vector<NonTrivial, 4> v{};
         (void)v.try_emplace_back(seed); (void)v.try_push_back(NonTrivial{2}); v.pop_back();
+        (void)v.try_emplace_back(3); (void)v.try_emplace_back(4); (void)v.try_emplace_back(5);
+        auto* refused = v.try_emplace_back(6);   // full: nullptr
         auto c = v; auto m = etl::move(c);
-        acc += static_cast<long long>(v.size() + m.size());
+        etl::inplace_vector<int, 2> t{};
+        t.unchecked_push_back(1); (void)t.try_push_back(2); (void)t.try_push_back(3);
+        auto t2 = t;
+        etl::inplace_vector<int, 0> z{};
+        acc += static_cast<long long>(v.size() + m.size() + t2.size() + z.size()) + (refused == nullptr ? 1 : 0);
         break;
     }
-    case 2: {   // inplace_string on both sides of the small-layout boundary
-        etl::inplace_string<15> s{"abc"};
-        s.append("defgh"); s.insert(2, "xy"); s.erase(1, 2); s.push_back('q'); s.resize(4);
-        etl::inplace_string<32> t{"hello world"};
-        t.append(4, '!'); t.replace(0, 1, "J");
-        acc += static_cast<long long>(s.size() + t.size() + t.find("wor") + s.compare(t));
+    case 2: acc += ce::str(seed); break;     // inplace_string on both sides of the small-layout boundary
+    case 3: acc += ce::view(seed); break;    // string_view searches on a non-terminated array
+    case 4: acc += ce::algo(seed); break;    // mutating algorithms on caller arrays
+    case 5: acc += ce::conv(seed); break;    // charconv, to_integer, from_integer with exact-fit buffers
+    case 6: {                                // sets
+        acc += ce::sets(seed);
+        etl::static_vector<int, 6> cont; cont.push_back(3); cont.push_back(1); cont.push_back(3);
+        etl::flat_multiset<int, etl::static_vector<int, 6>> fm{cont};
+        etl::static_set<NonTrivial, 3> sn;
+        sn.insert(NonTrivial{2}); sn.insert(NonTrivial{1}); sn.insert(NonTrivial{2}); sn.erase(NonTrivial{1});
+        acc += static_cast<long long>(fm.size() + sn.size());
         break;
     }
-    case 3: {   // string_view searches
-        etl::string_view h{"the quick brown fox"};
-        acc += static_cast<long long>(h.find("brown") + h.rfind('o') + h.find_first_of("xyz") + h.find_last_not_of("x") + h.substr(4, 5).size());
+    case 7: {                                // optional / variant / expected, trivial and non-trivial
+        acc += ce::sum(seed);
+        etl::optional<NonTrivial> o; o.emplace(4); auto o2 = o; o.reset(); o = etl::move(o2);
+        etl::variant<int, NonTrivial> v{1}; v = NonTrivial{2}; auto v2 = v; v.emplace<0>(seed); etl::swap(v, v2);
+        etl::expected<NonTrivial, int> e{etl::in_place, 3}; etl::expected<NonTrivial, int> g{etl::unexpect, 7}; auto e3 = e; e = g; g = etl::move(e3);
+        int target = 5; etl::optional<int&> ref{target}; *ref = 6;
+        acc += static_cast<long long>(v.index() + v2.index()) + (o ? o->v : 0) + (e ? e->v : e.error()) + target;
         break;
     }
-    case 4: {   // algorithms on caller arrays
-        int a[8] = {5, 3, 8, 1, 9, 2, 7, seed};
-        etl::sort(a, a + 8);
-        etl::rotate(a, a + 3, a + 8);
-        etl::stable_sort(a, a + 8);
-        auto* p = etl::lower_bound(a, a + 8, 5);
-        etl::reverse(a, a + 8);
-        acc += (p - a) + etl::accumulate(a, a + 8, 0) + *etl::max_element(a, a + 8);
+    case 8: acc += ce::algo2(seed); break;   // non-mutating, set, numeric algorithms with exact-fit outputs
+    case 9: acc += ce::bits(seed); break;    // bitset, <bit>, saturation helpers
+    case 10: acc += ce::views(seed); break;  // span, mdspan
+    case 11: {                               // pair / tuple / callable wrappers
+        acc += ce::wrap(seed);
+        etl::inplace_function<int(int)> f{[seed](int x) { return x + seed; }};
+        etl::inplace_function<int(int)> g{free_twice};
+        NonTrivial cap{3};
+        etl::inplace_function<int(int)> h{[cap](int x) { return x + cap.v; }};
+        auto f2 = f; f = g; g = etl::move(h); f.swap(g); f.swap(f);
+        etl::inplace_function<int(int)> empty{};
+        empty = f2;
+        etl::function_ref<int(int)> fr{free_twice};
+        auto lam = [](int x) { return x - 1; };
+        etl::function_ref<int(int)> fl{lam};
+        auto bf = etl::bind_front([](int a, int b) { return a - b; }, 10);
+        acc += f(1) + g(2) + f2(3) + empty(4) + fr(5) + fl(6) + (h ? 1 : 0) + bf(4);
+        etl::tuple<NonTrivial, int> tn{NonTrivial{1}, 2}; auto tn2 = tn; tn = tn2;
+        etl::pair<NonTrivial, NonTrivial> pn{NonTrivial{1}, NonTrivial{2}}; auto pn2 = etl::move(pn);
+        acc += etl::get<0>(tn).v + pn2.second.v;
         break;
     }
-    case 5: {   // charconv
-        char buf[24];
-        auto r = etl::to_chars(buf, buf + 24, seed * 1000 + 123, 10);
-        int out = 0;
-        auto f = etl::from_chars(buf, r.ptr, out, 10);
-        acc += out + (f.ptr - buf);
+    case 12: acc += ce::chrono(seed); break; // durations, rounding casts, calendar
+    case 13: {                               // cstring / cctype / cstdlib / cwchar on exact-size arrays
+        char dst[7];                         // "abcdef" + terminator: exact fit
+        char const* cdst = dst;
+        etl::strcpy(dst, "abc"); etl::strcat(dst, "def");
+        char small[3]; etl::strncpy(small, dst, 3);   // no terminator written, none needed
+        char mv[6] = {'a', 'b', 'c', 'd', 'e', 'f'};
+        etl::memmove(mv + 1, mv, 5); etl::memmove(mv, mv + 2, 4); etl::memset(mv, 'z', 6);
+        acc += static_cast<long long>(etl::strlen(dst)) + etl::strcmp(dst, "abcdeg") + etl::strncmp(small, "abd", 3)
+             + (etl::strchr(dst, 'f') - dst) + (etl::strrchr(dst, 0) - dst) + (etl::strstr(cdst, "ef") - cdst)
+             + static_cast<long long>(etl::strspn(dst, "abc") + etl::strcspn(dst, "f")) + (etl::strpbrk(cdst, "xe") - cdst)
+             + (static_cast<char const*>(etl::memchr(mv, 'z', 6)) - mv) + etl::memcmp(mv, "zzzzzz", 6);
+        wchar_t wd[4]; etl::wcscpy(wd, L"ab"); etl::wcscat(wd, L"c");
+        acc += static_cast<long long>(etl::wcslen(wd)) + etl::wcscmp(wd, L"abd");
+        acc += etl::isalpha('a' + (seed % 26)) + etl::tolower('A') + etl::isdigit(0xFF) + etl::isspace(-1);
+        acc += etl::atoi("  42x") + etl::strtol("-0x1f", nullptr, 0) + etl::abs(-seed) + etl::div(7, -2).quot;
+        acc += static_cast<long long>(etl::strtoul("99999999999999999999", nullptr, 10) & 0xFF);
         break;
     }
-    case 6: {   // sets
-        etl::static_set<int, 6> s;
-        s.insert(3); s.insert(1); s.insert(seed); s.insert(3); s.erase(1);
-        etl::flat_set<int, etl::static_vector<int, 6>> f;
-        f.insert(4); f.insert(2); f.insert(4);
-        acc += static_cast<long long>(s.size() + f.size() + (s.contains(3) ? 1 : 0));
+    case 14: {                               // stack, iterator adaptors, uninitialised-memory algorithms, array
+        etl::stack<int, etl::static_vector<int, 4>> st; st.push(1); st.push(seed); st.pop();
+        etl::array<int, 4> ar{1, 2, 3, 4};
+        etl::static_vector<int, 4> out;
+        etl::copy(ar.rbegin(), ar.rend(), etl::back_inserter(out));   // exactly full
+        alignas(NonTrivial) unsigned char raw[sizeof(NonTrivial) * 3];
+        auto* first = reinterpret_cast<NonTrivial*>(raw);
+        NonTrivial src[3] = {NonTrivial{1}, NonTrivial{2}, NonTrivial{3}};
+        etl::uninitialized_copy(src, src + 3, first);
+        etl::destroy(first, first + 3);
+        etl::uninitialized_fill(first, first + 3, NonTrivial{7});
+        auto* one = etl::construct_at(first + 1, 9); acc += one->v; etl::destroy_at(first + 1); etl::construct_at(first + 1, 1);
+        etl::destroy_n(first, 3);
+        etl::mdarray<int, etl::extents<int, 2, 3>, etl::layout_right, etl::array<int, 6>> ma{};
+        ma(1, 2) = seed;
+        acc += static_cast<long long>(st.size() + out.size()) + out.back() + ar[3] + ma(1, 2) + static_cast<long long>(ma.size());
         break;
     }
-    case 7: {   // optional / variant / bitset / span / cstring
-        etl::optional<NonTrivial> o; o.emplace(4); o.reset();
-        etl::variant<int, NonTrivial> v{1}; v = NonTrivial{2}; v.emplace<0>(seed);
-        etl::bitset<70> b; b.set(69); b.flip();
-        int arr[4] = {1, 2, 3, 4};
-        etl::span<int> sp{arr}; auto sub = sp.subspan(1, 2);
-        char dst[16]; etl::strcpy(dst, "abc"); etl::strcat(dst, "def");
-        acc += static_cast<long long>(v.index() + b.count() + sub.size() + etl::strlen(dst));
+    case 15: {                               // wide / 16 / 32-bit character strings, to_string, sto*
+        etl::basic_inplace_string<wchar_t, 7> w{L"ab"}; w.append(5, L'x'); w.insert(1, L"");   // full, tiny layout
+        etl::basic_inplace_string<char16_t, 20> u{u"hello"}; u.replace(1, 2, u"EE"); u.resize(20, u'!'); u.erase(3);
+        auto ts = etl::to_string<12>(-2147483647 - 1);   // 11 characters + terminator region: fits exactly
+        auto tu = etl::to_string<21>(18446744073709551615ULL);
+        acc += static_cast<long long>(w.size() + u.size() + ts.size() + tu.size() + w.find(L'x') + u.rfind(u'l'));
+        acc += etl::stoi(etl::inplace_string<16>{"  -77 "}) + static_cast<long long>(etl::stoul(etl::inplace_string<16>{"0x1F"}, nullptr, 16));
         break;
     }
     default: break;
     }
     return acc;
 }
+constexpr int n_batteries = 16;
+
+// the constexpr batteries by number; ce_table holds their values as computed by the constant evaluator
+constexpr int ce_count    = 12;
+constexpr int ce_seeds[3] = {0, 1, 7};
+constexpr auto ce_run(int which, int seed) -> long long
+{
+    switch (which) {
+    case 0: return ce::vec(seed);
+    case 1: return ce::str(seed);
+    case 2: return ce::view(seed);
+    case 3: return ce::algo(seed);
+    case 4: return ce::algo2(seed);
+    case 5: return ce::conv(seed);
+    case 6: return ce::sets(seed);
+    case 7: return ce::sum(seed);
+    case 8: return ce::bits(seed);
+    case 9: return ce::views(seed);
+    case 10: return ce::wrap(seed);
+    default: return ce::chrono(seed);
+    }
+}
+#define C02_ROW(w) {ce_run(w, 0), ce_run(w, 1), ce_run(w, 7)}
+constexpr long long ce_table[ce_count][3] = {C02_ROW(0), C02_ROW(1), C02_ROW(2), C02_ROW(3), C02_ROW(4), C02_ROW(5),
+                                             C02_ROW(6), C02_ROW(7), C02_ROW(8), C02_ROW(9), C02_ROW(10), C02_ROW(11)};
 
 template <typename T, typename F>
 static void default_init_probe(Out& impl, F&& observe)
@@ -160,7 +529,12 @@ static void default_init_probe(Out& impl, F&& observe)
     alignas(alignof(T) > 16 ? alignof(T) : 16) unsigned char storage[sizeof(T) + 16];
     std::memset(storage, 0xFF, sizeof storage);
     T* p = ::new (static_cast<void*>(storage)) T;   // default-initialisation: no () and no {}
+    impl.tok("ok");
     observe(impl, *p);
+    // an object whose size member is indeterminate must not run its destructor (it would destroy size() elements)
+    if constexpr (requires { p->size(); p->capacity(); }) {
+        if (static_cast<unsigned long long>(p->size()) > static_cast<unsigned long long>(p->capacity())) { return; }
+    }
     p->~T();
 }
 
@@ -169,6 +543,7 @@ bool vh::run_case(std::string const& op, Toks& in, Out& impl, Out& ref)
     if (op == "noalloc") {
         auto which = static_cast<int>(in.num());
         auto seed  = static_cast<int>(in.num());
+        if (which < 0 || which >= n_batteries) { return false; }
         g_allocs       = 0;
         g_count_allocs = true;
         g_sink += battery(which, seed);
@@ -177,27 +552,96 @@ bool vh::run_case(std::string const& op, Toks& in, Out& impl, Out& ref)
         ref.tok("ok").tok("allocs").num(0);
         return true;
     }
+    if (op == "noalloc_ce") {
+        // the constexpr batteries: value computed by the constant evaluator == value computed at run time
+        auto which = static_cast<int>(in.num());
+        auto idx   = static_cast<int>(in.num());
+        if (which < 0 || which >= ce_count || idx < 0 || idx >= 3) { return false; }
+        g_allocs       = 0;
+        g_count_allocs = true;
+        auto const v   = ce_run(which, ce_seeds[idx]);
+        g_count_allocs = false;
+        g_sink += v;
+        impl.tok("ok").tok("allocs").num(g_allocs);
+        if (v != ce_table[which][idx]) { impl.tok("runtime").num(v).tok("consteval").num(ce_table[which][idx]); }
+        ref.tok("ok").tok("allocs").num(0);
+        return true;
+    }
     if (op == "default_init") {
-        auto what = in.str();
-        auto sized = [](Out& o, auto const& x) { o.tok("ok").num(static_cast<i64>(x.size())).b(x.empty()); };
+        auto what  = in.str();
+        auto sized = [](Out& o, auto const& x) { o.num(static_cast<i64>(x.size())).b(x.empty()); };
+        auto strng = [](Out& o, auto const& x) { o.num(static_cast<i64>(x.size())).b(x.empty()).num(static_cast<i64>(x.c_str()[0])); };
+        auto viewd = [](Out& o, auto const& x) { o.num(static_cast<i64>(x.size())).b(x.empty()).b(x.data() == nullptr); };
+        auto optnl = [](Out& o, auto const& x) { o.b(x.has_value()); };
+        auto bitst = [](Out& o, auto const& x) { o.num(static_cast<i64>(x.count())).b(x.none()); };
         if (what == "sv_int") { default_init_probe<etl::static_vector<int, 4>>(impl, sized); }
         else if (what == "sv_nt") { default_init_probe<etl::static_vector<NonTrivial, 4>>(impl, sized); }
         else if (what == "iv_int") { default_init_probe<etl::inplace_vector<int, 4>>(impl, sized); }
         else if (what == "iv_nt") { default_init_probe<etl::inplace_vector<NonTrivial, 4>>(impl, sized); }
-        else if (what == "str7") { default_init_probe<etl::inplace_string<7>>(impl, sized); }
-        else if (what == "str16") { default_init_probe<etl::inplace_string<16>>(impl, sized); }
-        else if (what == "str255") { default_init_probe<etl::inplace_string<255>>(impl, sized); }
-        else if (what == "string_view") { default_init_probe<etl::string_view>(impl, sized); }
-        else if (what == "span") { default_init_probe<etl::span<int>>(impl, sized); }
+        else if (what == "str7") { default_init_probe<etl::inplace_string<7>>(impl, strng); }
+        else if (what == "str15") { default_init_probe<etl::inplace_string<15>>(impl, strng); }
+        else if (what == "str16") { default_init_probe<etl::inplace_string<16>>(impl, strng); }
+        else if (what == "str255") { default_init_probe<etl::inplace_string<255>>(impl, strng); }
+        else if (what == "str256") { default_init_probe<etl::inplace_string<256>>(impl, strng); }
+        else if (what == "wstr7") { default_init_probe<etl::basic_inplace_string<wchar_t, 7>>(impl, strng); }
+        else if (what == "wstr16") { default_init_probe<etl::basic_inplace_string<wchar_t, 16>>(impl, strng); }
+        else if (what == "string_view") { default_init_probe<etl::string_view>(impl, viewd); }
+        else if (what == "wstring_view") { default_init_probe<etl::wstring_view>(impl, viewd); }
+        else if (what == "span") { default_init_probe<etl::span<int>>(impl, viewd); }
+        else if (what == "span_static0") { default_init_probe<etl::span<int, 0>>(impl, viewd); }
+        else if (what == "mdspan") {
+            default_init_probe<etl::mdspan<int, etl::dextents<etl::size_t, 2>>>(impl, [](Out& o, auto const& x) {
+                o.num(static_cast<i64>(x.size())).b(x.empty()).b(x.data_handle() == nullptr);
+            });
+        }
         else if (what == "static_set") { default_init_probe<etl::static_set<int, 4>>(impl, sized); }
         else if (what == "flat_set") { default_init_probe<etl::flat_set<int, etl::static_vector<int, 4>>>(impl, sized); }
-        else if (what == "optional") { default_init_probe<etl::optional<int>>(impl, [](Out& o, auto const& x) { o.tok("ok").num(0).b(!x.has_value()); }); }
-        else if (what == "bitset") { default_init_probe<etl::bitset<70>>(impl, [](Out& o, auto const& x) { o.tok("ok").num(static_cast<i64>(x.count())).b(x.none()); }); }
+        else if (what == "flat_multiset") { default_init_probe<etl::flat_multiset<int, etl::static_vector<int, 4>>>(impl, sized); }
+        else if (what == "stack") { default_init_probe<etl::stack<int, etl::static_vector<int, 4>>>(impl, sized); }
+        else if (what == "optional") { default_init_probe<etl::optional<int>>(impl, optnl); }
+        else if (what == "optional_nt") { default_init_probe<etl::optional<NonTrivial>>(impl, optnl); }
+        else if (what == "variant") {
+            default_init_probe<etl::variant<int, NonTrivial>>(impl, [](Out& o, auto const& x) {
+                o.num(static_cast<i64>(x.index())).num(x.index() == 0 ? *etl::get_if<0>(&x) : -1);
+            });
+        }
+        else if (what == "expected") {
+            default_init_probe<etl::expected<int, int>>(impl, [](Out& o, auto const& x) { o.b(x.has_value()).num(x.has_value() ? *x : -1); });
+        }
+        else if (what == "bitset") { default_init_probe<etl::bitset<70>>(impl, bitst); }
+        else if (what == "bitset8") { default_init_probe<etl::bitset<8>>(impl, bitst); }
+        else if (what == "bitset64") { default_init_probe<etl::bitset<64>>(impl, bitst); }
+        else if (what == "inplace_function") {
+            default_init_probe<etl::inplace_function<int(int)>>(impl, [](Out& o, auto const& x) { o.b(static_cast<bool>(x)); });
+        }
+        else if (what == "pair") { default_init_probe<etl::pair<int, long>>(impl, [](Out& o, auto const& x) { o.num(x.first).num(x.second); }); }
+        else if (what == "tuple") {
+            default_init_probe<etl::tuple<int, long>>(impl, [](Out& o, auto const& x) { o.num(etl::get<0>(x)).num(etl::get<1>(x)); });
+        }
+        else if (what == "extents") {
+            default_init_probe<etl::dextents<int, 2>>(impl, [](Out& o, auto const& x) { o.num(x.extent(0)).num(x.extent(1)); });
+        }
+        else if (what == "duration") { default_init_probe<etl::chrono::seconds>(impl, [](Out& o, auto const& x) { o.num(x.count()); }); }
         else { return false; }
-        ref.tok("ok").num(0).b(true);
+        // reference leg: the standard's default-constructed state, written out per kind
+        if (what == "sv_int" || what == "sv_nt" || what == "iv_int" || what == "iv_nt" || what == "static_set" || what == "flat_set"
+            || what == "flat_multiset" || what == "stack") { ref.tok("ok").num(0).b(true); }
+        else if (what.rfind("str", 0) == 0 && what != "string_view") { ref.tok("ok").num(0).b(true).num(0); }
+        else if (what.rfind("wstr", 0) == 0 && what != "wstring_view") { ref.tok("ok").num(0).b(true).num(0); }
+        else if (what == "string_view" || what == "wstring_view" || what == "span" || what == "span_static0" || what == "mdspan") {
+            ref.tok("ok").num(0).b(true).b(true);
+        }
+        else if (what == "optional" || what == "optional_nt" || what == "inplace_function" || what == "duration") { ref.tok("ok").num(0); }
+        else if (what == "variant" || what == "pair" || what == "tuple" || what == "extents") { ref.tok("ok").num(0).num(0); }
+        else if (what == "expected") { ref.tok("ok").num(1).num(0); }
+        else { ref.tok("ok").num(0).b(true); }   // bitsets
         return true;
     }
     return false;
 }
+
+// (c) the constant evaluator as UB oracle: ce_table above is a constexpr array, so every constexpr battery is
+// evaluated at compile time for the seeds 0, 1, 7; UB in any of them makes this translation unit ill-formed.
+static_assert(ce_table[0][0] == ce::vec(0));
 
 VERIF_MAIN()
